@@ -12,6 +12,14 @@ use super::{
 
 /// Script Matching functions
 impl Interpreter {
+    /// Every opcode fails cleanly when the stack holds fewer operands than it needs
+    fn require_items(state: &State, count: usize) -> Result<(), InterpreterError> {
+        match state.stack.len() >= count {
+            true => Ok(()),
+            false => Err(InterpreterError::InvalidStackOperation("Not enough items on the stack for this opcode")),
+        }
+    }
+
     fn verify(boolean: bool) -> Result<(), InterpreterError> {
         match boolean {
             true => Ok(()),
@@ -136,34 +144,47 @@ impl Interpreter {
                 state.stack.push(top_data);
             }
             OpCodes::OP_NIP => {
+                Interpreter::require_items(state, 2)?;
                 state.stack.remove(state.stack.len() - 2);
             }
             OpCodes::OP_OVER => {
+                Interpreter::require_items(state, 2)?;
                 let index = state.stack.len() - 2;
                 let second_last = state.stack.get(index).cloned().ok_or(InterpreterError::NumberOutOfRange)?;
                 state.stack.push_bytes(second_last);
             }
             OpCodes::OP_PICK => {
+                Interpreter::require_items(state, 2)?;
                 let index = state.stack.pop_number()?;
+                if index < 0 || index as usize >= state.stack.len() {
+                    return Err(InterpreterError::InvalidStackOperation("OP_PICK index is out of range"));
+                }
                 let selected_item = state.stack.get((state.stack.len() - 1) - index as usize).cloned().ok_or(InterpreterError::NumberOutOfRange)?;
                 state.stack.push_bytes(selected_item);
             }
             OpCodes::OP_ROLL => {
+                Interpreter::require_items(state, 2)?;
                 let index = state.stack.pop_number()?;
+                if index < 0 || index as usize >= state.stack.len() {
+                    return Err(InterpreterError::InvalidStackOperation("OP_ROLL index is out of range"));
+                }
                 let selected_item = state.stack.remove((state.stack.len() - 1) - index as usize);
                 state.stack.push_bytes(selected_item);
             }
             OpCodes::OP_ROT => {
+                Interpreter::require_items(state, 3)?;
                 let len = state.stack.len();
                 let third = state.stack.remove(len - 3);
 
                 state.stack.push_bytes(third);
             }
             OpCodes::OP_SWAP => {
+                Interpreter::require_items(state, 2)?;
                 let len = state.stack.len();
                 state.stack.swap(len - 1, len - 2);
             }
             OpCodes::OP_TUCK => {
+                Interpreter::require_items(state, 2)?;
                 let selected_item = state.stack.last().cloned().ok_or(InterpreterError::NumberOutOfRange)?;
                 state.stack.insert(state.stack.len() - 2, selected_item);
             }
@@ -172,6 +193,7 @@ impl Interpreter {
                 state.stack.pop_bytes()?;
             }
             OpCodes::OP_2DUP => {
+                Interpreter::require_items(state, 2)?;
                 let first = state.stack.last().cloned().ok_or(InterpreterError::NumberOutOfRange)?;
                 let second = state.stack.get(state.stack.len() - 2).cloned().ok_or(InterpreterError::NumberOutOfRange)?;
 
@@ -179,6 +201,7 @@ impl Interpreter {
                 state.stack.push_bytes(second);
             }
             OpCodes::OP_3DUP => {
+                Interpreter::require_items(state, 3)?;
                 let first = state.stack.last().cloned().ok_or(InterpreterError::NumberOutOfRange)?;
                 let second = state.stack.get(state.stack.len() - 2).cloned().ok_or(InterpreterError::NumberOutOfRange)?;
                 let third = state.stack.get(state.stack.len() - 3).cloned().ok_or(InterpreterError::NumberOutOfRange)?;
@@ -188,6 +211,7 @@ impl Interpreter {
                 state.stack.push_bytes(third);
             }
             OpCodes::OP_2OVER => {
+                Interpreter::require_items(state, 4)?;
                 let len = state.stack.len();
                 let third = state.stack[len - 3].clone();
                 let fourth = state.stack[len - 4].clone();
@@ -195,6 +219,7 @@ impl Interpreter {
                 state.stack.push_bytes(third);
             }
             OpCodes::OP_2ROT => {
+                Interpreter::require_items(state, 6)?;
                 let index = state.stack.len() - 6;
                 let sixth = state.stack.remove(index);
                 let fifth = state.stack.remove(index);
@@ -231,7 +256,7 @@ impl Interpreter {
             }
 
             OpCodes::OP_SIZE => {
-                let len = state.stack.last().unwrap().len();
+                let len = state.stack.last().ok_or(InterpreterError::EmptyStack)?.len();
                 state.stack.push_number(len as i64)?;
             }
             OpCodes::OP_INVERT => {
